@@ -160,7 +160,9 @@ def unescape(s):
 
 def run_tlc(name, inst, fixes, check, emit, workers=8, timeout=600, simulate=None, seed=0, maxbeh=None, expect_violation=False):
     """Runs TLC on an instance. Returns dict(states, distinct, violated, behaviours, wall, cex)."""
-    workdir = os.path.join(OUT, "tlc", name)
+    # one directory per check process: several checks may run at the same time and share instances
+    workdir = os.path.join(OUT, "tlc", "%s.%d" % (name, os.getpid()))
+    shutil.rmtree(workdir, ignore_errors=True)
     shutil.rmtree(workdir, ignore_errors=True)
     mod, c = write_instance(name, inst, fixes, check, workdir, emit)
     cmd = ["timeout", str(timeout), "tlc", "-workers", str(workers), "-metadir", os.path.join(workdir, "states"), "-cleanup",
@@ -513,14 +515,14 @@ def channel_model(tier, fixes):
     flush() returns also when it overlaps a cycle, a dead thread's receiver is dropped).  The pinned variants
     must fail.  The model does not depend on /repo; it is bound to the code by TraceChan.tla (validate)."""
     import hashlib
-    d = os.path.join(OUT, "chan")
+    d = os.path.join(OUT, "chan", "work.%d" % os.getpid())
     os.makedirs(d, exist_ok=True)
     files = sorted(f for f in os.listdir(SPEC) if f.startswith("MC_Channel") or f == "Channel.tla")
     h = hashlib.sha1()
     for f in files:
         h.update(open(os.path.join(SPEC, f), "rb").read())
     h.update(("%s %s" % (tier, fixes)).encode())
-    cache = os.path.join(d, "result-%s.json" % h.hexdigest()[:16])
+    cache = os.path.join(OUT, "chan", "result-%s.json" % h.hexdigest()[:16])
     if os.path.exists(cache):
         return json.load(open(cache))
     for f in files:
@@ -567,7 +569,9 @@ def channel_model(tier, fixes):
     res = dict(module="spec/Channel.tla", config=main["cfg"], states=main["distinct"], transitions=main["generated"], wall_s=main["wall_s"],
                invariants=re.findall(r"^INVARIANTS (.*)$", cfgtxt, re.M)[0].split(), liveness_under_fairness=re.findall(r"^PROPERTIES (.*)$", cfgtxt, re.M)[0].split(),
                pinned_variants=variants)
-    json.dump(res, open(cache, "w"))
+    json.dump(res, open(cache + ".tmp.%d" % os.getpid(), "w"))
+    os.replace(cache + ".tmp.%d" % os.getpid(), cache)
+    shutil.rmtree(d, ignore_errors=True)
     return res
 
 
